@@ -1,6 +1,7 @@
 (* C20 — size arithmetic never wraps.  Statements only; proofs in theories/PMem_proofs.v.
    [w] is the width of size_t in bits: every theorem holds for any width, in particular 64. *)
-From CB Require Import Word PMem PItem SpecItem PMem_proofs Bridge_config GenLeafTypes Bridge_leaf_mem.
+From CB Require Import Word PMem PItem SpecItem PMem_proofs Bridge_config GenLeafTypes Bridge_leaf_mem Bridge_inventory.
+From CBGen Require Import Gen_inventory.
 From CBGen Require Import Gen_leaf.
 From CBGen Require Import Gen_config.
 From Coq Require Import ZArith.
@@ -70,3 +71,8 @@ Proof. exact bridge_safe_signaling_add. Qed.
 Theorem C20_code_header_size : forall s, g_cbor_encoded_header_size (Z.of_N s) = Z.of_N (header_size s).
 Proof. exact bridge_header_size. Qed.
 Print Assumptions C20_code_safe_to_multiply.
+
+Theorem C20_no_narrowing_from_64 : forallb (fun g => let '(_, _, from, _, _) := g in from <? 64) gen_narrowing = true.
+Proof. exact bridge_no_narrowing_from_64. Qed.
+Theorem C20_field_widths : forallb field_is_64 required_fields = true.
+Proof. exact bridge_field_widths. Qed.
